@@ -138,7 +138,9 @@ def run_h2(ctx, rec, driver):
     answers = driver.run(lines) if driver and lines else []
     for ans, (outcome, blen, eof, evs, rt, cfg, seed, idx) in zip(answers, meta):
         rec.dist["h2:model:" + ans.split()[0]] += 1
-        want = {"complete": "ok", "failed": "error:RemoteProtocolError", "needmore": "error:RemoteProtocolError" if eof else None}[ans.split()[0]]
+        # the property demands *an* error for a reset / truncated stream; which class is C15's question (a reset that arrives while the
+        # request is still uploading surfaces through h2's StreamClosedError)
+        want = {"complete": "ok", "failed": None, "needmore": None}[ans.split()[0]]
         ok = True
         if ans.startswith("complete"):
             ok = outcome == "ok" and blen == int(ans.split()[1])
